@@ -312,8 +312,10 @@ Definition readable (d : doc) : bool :=
   (match props_read (d_info d) with Some _ => true | None => false end)
   && (match d_vp d with Some vp => vp_readable vp | None => true end).
 
-(* api.Write followed by the next read *)
-Definition persist (d : doc) : doc := set_info d (persist_info (d_info d)).
+(* api.Write followed by the next read; write.go writes the header %PDF-1.7 for every
+   document that is not PDF 2.0 and drops a Root /Version *)
+Definition persist (d : doc) : doc :=
+  Doc (if d_ver d =? 20 then 20 else 17) (d_kw d) (persist_info (d_info d)) (d_pl d) (d_pm d) (d_vp d) (d_att d).
 
 Definition kw_read (d : doc) : list str :=
   match d_kw d with None => [] | Some s => kw_of_text s end.
